@@ -77,6 +77,28 @@ def random_exec(rng, nops, maxlen, alphabet):
     return L
 
 
+def length_sweep(rng, quick):
+    """every operand length across the sizes at which implementations switch strategy (small buffers, powers of two):
+    formatted writes, concat, assign, resize and rem with operands of each length"""
+    lens = list(range(0, 140)) + [254, 255, 256, 257, 511, 512, 513, 1023, 1024, 1025, 4095, 4096, 4097]
+    if not quick:
+        lens = list(range(0, 600)) + [1023, 1024, 1025, 2047, 2048, 2049, 4095, 4096, 4097, 8191, 8192, 8193]
+    out = []
+    for chunk in range(0, len(lens), 25):
+        L = ["reset", "new 1 %s" % hx(b"seed")]
+        for n in lens[chunk:chunk + 25]:
+            t = bytes(rng.choice(b"abcdefghijklmnopqrstuvwxyz") for _ in range(n))
+            L.append("printat 1 0 %s" % hx(t))
+            L.append("printat 1 %d %s" % (min(3, n), hx(t)))
+            L.append("concat 1 %s" % hx(b"+"))
+            L.append("assign 1 %s" % hx(t)); L.append("concat 1 %s" % hx(t[: n // 2]))
+            L.append("resize 1 %d" % n)
+            if n:
+                L.append("rem 1 %s" % hx(t[: max(1, n // 3)]))
+        out.append(L)
+    return out
+
+
 def main(tier, replay=None):
     chk = vlib.Check(PID, tier, "model_checking")
     rng, wd = chk.rng, chk.wd
@@ -107,6 +129,7 @@ def main(tier, replay=None):
     n = 160 if quick else 1500
     camp.run([], [random_exec(rng, rng.choice([60, 150]), 1000 if not quick else 300, rng.choice([b"ab", b"ab", b"a\x80\xffz", full]))
                   for _ in range(n)], "random")
+    camp.run([], length_sweep(rng, quick), "lengths", sample=False)
     chk.cov["rule"] = ("an execution = a history of String calls on the real library; every event carries the bytes, len, hash and buffer "
                        "capacity of every live String, judged by TLC against the abstract byte sequence; distinct = different history")
     chk.cov["exhaustive"] = covered == total
